@@ -87,6 +87,10 @@ pub struct Sc {
     /// error after this many bytes; the prints that follow must not notice
     #[serde(default)]
     pub sink_fail_at: Option<usize>,
+    /// 0: one caller thread.  Otherwise write number i (and the final prints, bit 62)
+    /// are made by a second thread when bit i mod 63 is set.
+    #[serde(default)]
+    pub migrate: u64,
 }
 
 pub struct Rendered {
@@ -401,6 +405,10 @@ struct Mon<'a> {
     twin: Option<SummaryStream>,
     twin_bytes: Vec<u8>,
     twin_pos: usize,
+    /// a second caller thread: write number i is made by it when bit i mod 63 of the
+    /// mask is set (the stream object moves between threads with its carry-over)
+    helper: Option<Helper>,
+    mask: u64,
 }
 
 impl<'a> Mon<'a> {
@@ -419,7 +427,7 @@ impl<'a> Mon<'a> {
         for e in &self.drained {
             s.push_str(&format!("{}\n", e));
         }
-        s.push_str(&self.stream.to_string());
+        s.push_str(&on_thread!(self.helper, self.mask, 62u64, self.stream.to_string()));
         s
     }
     fn terminated(&self, delivered: usize) -> usize {
@@ -480,9 +488,11 @@ impl<'a> Write for Mon<'a> {
                 self.twin_pos += c;
             }
         }
-        let w0 = crate::alloc_meter::work_bytes();
-        let res = self.stream.write(buf);
-        let wa = crate::alloc_meter::work_bytes().wrapping_sub(w0);
+        let (res, wa) = on_thread!(self.helper, self.mask, self.writes.len(), {
+            let w0 = crate::alloc_meter::work_bytes();
+            let res = self.stream.write(buf);
+            (res, crate::alloc_meter::work_bytes().wrapping_sub(w0))
+        });
         self.work_alloc += wa;
         // the call may have to look at what earlier writes left pending
         let last_term = self.rend.term_ends.iter().cloned().filter(|&t| t <= before).max().unwrap_or(0);
@@ -730,6 +740,7 @@ impl Property for C09 {
                 twin_entries: Vec::new(),
                 twin_chunk: 0,
                 sink_fail_at: None,
+                migrate: 0,
             };
             let len = render(&sc).bytes.len();
             let lens: Vec<usize> = match rng.below(4) {
@@ -773,6 +784,7 @@ impl Property for C09 {
             twin_entries: Vec::new(),
             twin_chunk: 0,
             sink_fail_at: None,
+            migrate: 0,
         };
         if rng.chance(1, 4) {
             let k = rng.urange(1, 2);
@@ -780,6 +792,9 @@ impl Property for C09 {
             sc.twin_chunk = *rng.pick(&[1usize, 1, 2, 3, 5, 16]);
         }
         let rend = render(&sc);
+        if rng.chance(1, 8) {
+            sc.migrate = rng.next_u64() | (1 << 63);
+        }
         if rng.chance(1, 4) {
             sc.sink_fail_at = Some(if rng.chance(1, 2) { rng.urange(0, 64) } else { rng.urange(0, rend.bytes.len()) });
         }
@@ -842,6 +857,13 @@ impl Property for C09 {
             twin: None,
             twin_bytes: Vec::new(),
             twin_pos: 0,
+            helper: if sc.migrate != 0 && is_send_sync!(SummaryStream) {
+                ctx.fault("caller_thread_switch");
+                Some(Helper::new())
+            } else {
+                None
+            },
+            mask: sc.migrate,
         };
         if !sc.twin_entries.is_empty() {
             ctx.fault("interleaved_objects");
@@ -1208,6 +1230,9 @@ impl Property for C09 {
         if sc.sink_fail_at.is_some() {
             push!(Sc { sink_fail_at: None, ..sc.clone() });
         }
+        if sc.migrate != 0 {
+            push!(Sc { migrate: 0, ..sc.clone() });
+        }
         if sc.driver == Driver::Copy {
             // same partition through direct writes
             let lens: Vec<usize> = sc
@@ -1303,6 +1328,9 @@ impl Property for C09 {
         if rend.bytes.len() > 700 {
             return Vec::new();
         }
+        // (the sweeps stay on one caller thread: they are many and small)
+        let base = Sc { migrate: 0, ..sc.clone() };
+        let sc = &base;
         // every single-cut position, through direct writes (complete for this stream)
         let mut out: Vec<Sc> = (1..rend.bytes.len())
             .map(|k| Sc {
